@@ -277,6 +277,40 @@ def rename_aliases(bodies, known, detail):
     return out
 
 
+def module_moves(bodies, known):
+    """Items moved verbatim into a new (private) submodule: `a::Type::f` is missing and `a::sub::Type::f` is new.
+    Returns {new_prefix: old_prefix} (e.g. {'boxcar::location::': 'boxcar::'}) when every new function below the new
+    prefix corresponds to a missing inventory function."""
+    present = {b["path"] for b in bodies if b["kind"] in ("Fn", "AssocFn")}
+    missing = set(p for p in known if p not in present)
+    new = [b["path"] for b in bodies if b["kind"] in ("Fn", "AssocFn") and b["path"] not in known]
+    votes = {}
+    for q in new:
+        segs = q.split("::")
+        for i in range(0, len(segs) - 1):
+            if "<" in segs[i] or ">" in segs[i]:
+                continue
+            p_ = "::".join(segs[:i] + segs[i + 1:])
+            if p_ in missing:
+                np_, op_ = "::".join(segs[:i + 1]) + "::", ("::".join(segs[:i]) + "::") if i else ""
+                votes.setdefault((np_, op_), []).append(q)
+    out = {}
+    for (np_, op_), qs in votes.items():
+        under = [q for q in new if q.startswith(np_)]
+        if under and all(q in qs for q in under) and op_:
+            out[np_] = op_
+    return out
+
+
+def apply_module_moves(crate, moves):
+    if not moves:
+        return crate
+    txt = json.dumps(crate)
+    for np_, op_ in moves.items():
+        txt = txt.replace(np_, op_)
+    return json.loads(txt)
+
+
 def apply_aliases(crate, aliases):
     """Rename function paths (and the closures nested in them) throughout one crate's fact base."""
     if not aliases:
